@@ -51,6 +51,19 @@ class Fn(object):
         return ("F", self.id, x)
 
 
+class FalsyFn(object):
+    """A mapped function whose legitimate result is None / 0 / '' / () / False (dict.get, a counter, a flag)."""
+    RESULTS = [None, None, 0, "", (), False]
+
+    def __init__(self, k):
+        self.id = next(_uid)
+        self.ret = self.RESULTS[k % len(self.RESULTS)]
+
+    def __call__(self, x):
+        LOG.append(("f", self.id))
+        return self.ret
+
+
 def index_fn_factory():
     fid = next(_uid)
 
@@ -80,6 +93,8 @@ def m_value(e):
         return BUILTINS[e[1]](m_value(e[2]))
     if e[0] == "F":
         return ("F", e[1], m_value(e[2]))
+    if e[0] == "N":
+        return e[3]
     return e
 
 
@@ -98,7 +113,7 @@ def m_log(e):
 
 
 def m_depth(e):
-    return 1 + m_depth(e[2]) if e[0] in ("F", "B") else 1
+    return 1 + m_depth(e[2]) if e[0] in ("F", "B", "N") else 1
 
 
 class NonReading(taps.Monitor):
@@ -184,8 +199,13 @@ def w_program(ctx, rng, i):
         op = ["map", "mapmany", "slice", "fancy", "repeat", "addlazy", "addlist", "copy", "raddchain", "mapbuiltin", "plain_plus_lazy"][rng.integers(0, 11)]
         n0 = len(LOG)
         if op == "map":
-            f = Fn()
-            r, rm = a.map(f), [("F", f.id, e) for e in am]
+            if rng.random() < 0.25:
+                f = FalsyFn(int(rng.integers(0, 6)))
+                r, rm = a.map(f), [("N", f.id, e, f.ret) for e in am]
+                op = "map_falsy"
+            else:
+                f = Fn()
+                r, rm = a.map(f), [("F", f.id, e) for e in am]
         elif op == "plain_plus_lazy":
             # an ordinary sequence on the left: not supported by every version (TypeError is fine) - if it is, the order is the list's
             vals = [int(v) for v in rng.integers(0, 100, int(rng.integers(1, 4)))]
@@ -227,6 +247,22 @@ def w_program(ctx, rng, i):
             arg = [idx, tuple(idx), np.array(idx, dtype=np.int64), iter(list(idx))][form]
             r, rm = a[arg], [am[j] for j in idx]
             op = "fancy%d" % form
+            if form == 2 and k:
+                # the caller's index array is the caller's: it is as it was, and selects the same positions (counted from the
+                # end where negative) of any other list it is used on afterwards
+                if not np.array_equal(arg, np.array(idx, dtype=np.int64)):
+                    ctx.fail("fancy_indexing_modified_the_index_array_it_was_given", cls="LazyList")
+                b, bm, _ = pool[rng.integers(0, len(pool))]
+                if len(bm) and all(-len(bm) <= j < len(bm) for j in idx):
+                    nlog = len(LOG)
+                    r2 = b[arg]
+                    if len(LOG) != nlog:
+                        ctx.fail("operation_evaluated_something", cls="LazyList", mech="fancy", op="fancy2_reused")
+                    exp2 = [m_value(bm[j]) for j in idx]
+                    if len(r2) != len(exp2) or list(r2) != exp2:
+                        ctx.fail("element_value_differs_from_list_model", cls="LazyList", mech="index_array_reused_on_another_list", got=repr(list(r2))[:200], expected=repr(exp2)[:200], idx=idx)
+                    del LOG[nlog:]          # (this side check's own reads are not part of the program's trace)
+                    op = "fancy2_reused"
         elif op == "repeat":
             k = int(rng.integers(0, 4))
             r, rm = a.repeat(k), [e for e in am for _ in range(k)]
